@@ -1244,21 +1244,6 @@ func monC18(tr *Trace, br map[string]int) (out []Violation) {
 			out = append(out, viol("C18", "reveal-without-prevote", c.i, "vote of %s accepted although it holds no prevote", c.op[2]))
 			return
 		}
-		// an opening consists of well-formed entries for supported chains: anything else can be re-cut into a different opening
-		for _, vd := range parseVD(c.op[5]) {
-			for _, es := range vd.entries {
-				_, chain, ok := parseEntry(es)
-				sup := false
-				for _, ch := range c.pre.Chains {
-					if decTok(ch) == chain {
-						sup = true
-					}
-				}
-				if vd.topic != 'O' || !ok || !sup {
-					out = append(out, viol("C18", "opening-with-malformed-entry", c.i, "vote of %s accepted with the entry %q (topic %c), which is not a well-formed ownership entry of a supported chain", c.op[2], es, vd.topic))
-				}
-			}
-		}
 		want := commitment(decTok(c.op[3]), c.op[5])
 		if !strings.EqualFold(decTok(held), want) {
 			out = append(out, viol("C18", "reveal-does-not-open-prevote", c.i, "vote of %s (salt %s, data %s) accepted against prevote %s; its commitment is %s", c.op[2], c.op[3], c.op[5], held, want))
@@ -1285,6 +1270,37 @@ func monC14(tr *Trace, br map[string]int) (out []Violation) {
 	walk(tr, func(c *ctxStep) {
 		if c.op[0] != "block" || c.res[0] != "ok" {
 			return
+		}
+		// the distribution account holds exactly what the module owes: whatever reaches it in a block is matched by new liabilities
+		// (outstanding rewards, community pool) of the same amount
+		dden := map[string]bool{}
+		for _, st := range []*State{c.pre, c.post} {
+			for k := range st.Bal {
+				if strings.HasPrefix(k, "distr|") {
+					dden[k[6:]] = true
+				}
+			}
+		}
+		for d := range dden {
+			dd := new(big.Int).Sub(c.post.BalOf("distr", d), c.pre.BalOf("distr", d))
+			dl := big.NewInt(0)
+			for i := range c.pre.Vals {
+				k := fmt.Sprintf("v%d|%s", i, d)
+				for sign, m := range map[int]map[string]*big.Int{1: c.post.Outst, -1: c.pre.Outst} {
+					if v := m[k]; v != nil {
+						dl.Add(dl, new(big.Int).Mul(v, big.NewInt(int64(sign))))
+					}
+				}
+			}
+			if v := c.post.Comm[d]; v != nil {
+				dl.Add(dl, v)
+			}
+			if v := c.pre.Comm[d]; v != nil {
+				dl.Sub(dl, v)
+			}
+			if new(big.Int).Mul(dd, one).Cmp(dl) != 0 {
+				out = append(out, viol("C14", "distribution-account-unbacked-change", c.i, "the distribution account moved by %s %s in this block, its liabilities by %s/10^18", dd, d, dl))
+			}
 		}
 		denoms := map[string]bool{}
 		for k := range c.pre.Bal {
